@@ -256,14 +256,18 @@ func (e *EngineImpl) DropSeries() error {
 	defer e.mu.Unlock()
 	for db, dbptInfoMap := range e.DBPartitions {
 		for pt, dbptInfo := range dbptInfoMap {
-			ibMap := dbptInfo.indexBuilder
-			for indexId, ib := range ibMap {
+			// the indexes of one retention policy share its deleted-tsid index: they are purged together
+			byRp := make(map[string][]*tsi.IndexBuilder)
+			for indexId, ib := range dbptInfo.indexBuilder {
 				if DelIndexBuilderId == indexId {
 					continue
 				}
-				err := ib.DropSeries()
+				byRp[ib.RPName()] = append(byRp[ib.RPName()], ib)
+			}
+			for rp, ibs := range byRp {
+				err := tsi.DropSeriesOfPolicy(ibs)
 				if err != nil {
-					e.log.Error("drop series failed", zap.Uint32("pt", pt), zap.String("db", db), zap.Uint64("indexId", indexId))
+					e.log.Error("drop series failed", zap.Uint32("pt", pt), zap.String("db", db), zap.String("rp", rp), zap.Error(err))
 					errs = append(errs, err)
 				}
 			}
